@@ -165,14 +165,24 @@ func runAllEntryPoints(input string, strict bool) (viol string, outcome string) 
 			}
 			return b.String()
 		}
-		reusedMu.Lock()
-		rp := reusedParsers[strict]
-		if rp == nil {
-			rp = sml.NewParser(sml.WithParserStrictMode(strict))
-			reusedParsers[strict] = rp
-		}
-		m, err := rp.Parse(input)
-		reusedMu.Unlock()
+		var m []*hsms.DataMessage
+		var err error
+		func() {
+			reusedMu.Lock()
+			defer reusedMu.Unlock() // also when the parser panics (reported by try)
+			rp := reusedParsers[strict]
+			if rp == nil {
+				rp = sml.NewParser(sml.WithParserStrictMode(strict))
+				reusedParsers[strict] = rp
+				// its history begins with inputs abandoned deep inside nested lists (cut short, or with a
+				// junk byte 3000 lists down): nothing of an abandoned parse may be carried into the next
+				for _, in := range []string{"S1F1\n" + repeat("<L", 4000), "S1F1\n" + repeat("<L\n", 4000), "S1F1\n" + repeat("<L ", 3000) + "<U1 x>", "S1F1 W\n" + repeat("<L[1] ", 3500) + "#"} {
+					_, _ = rp.Parse(in)
+					_, _ = rp.ParseMessage(in)
+				}
+			}
+			m, err = rp.Parse(input)
+		}()
 		fm, ferr := sml.NewParser(sml.WithParserStrictMode(strict)).Parse(input)
 		if a, b := describe(m, err), describe(fm, ferr); a != b {
 			viol = fmt.Sprintf("a long-lived Parser(strict=%v) and a fresh one disagree on this input:\n long-lived: %.300s\n fresh:      %.300s", strict, a, b)
